@@ -6,8 +6,13 @@ src = "/tmp/seed-%s/SEED" % sid
 dst = "/verif/seeded/%s" % name
 os.makedirs(dst, exist_ok=True)
 for f in os.listdir(src):
-    if f.startswith("demo") or f == "patch.diff":
-        shutil.copy(os.path.join(src, f), dst)
+    if f in ("meta.json", "out", "__pycache__") or f.endswith((".o", ".bin", ".pyc")):
+        continue
+    q = os.path.join(src, f)
+    if os.path.isdir(q):
+        shutil.copytree(q, os.path.join(dst, f), dirs_exist_ok=True, ignore=shutil.ignore_patterns("*.o", "*.bin", "__pycache__"))
+    elif os.path.getsize(q) < 400000 and not os.access(q, os.X_OK) or f.endswith((".sh", ".py")):
+        shutil.copy(q, dst)
 meta = json.load(open(os.path.join(src, "meta.json")))
 def tail(p, n=3):
     try:
